@@ -124,11 +124,12 @@ class BMSIO(GameIO):
         for k, v in den["wavs"].items():
             if sm.get(k) != v:
                 out.append(f"#WAV{k.decode()}: read {sm.get(k)!r}, the file says {v!r}")
-        misc = _dictify(m.get("misc"))
+        # command names are case-insensitive: a header is retained whatever the case it is kept under
+        misc = {(k.upper() if isinstance(k, bytes) else k): v for k, v in _dictify(m.get("misc")).items()}
         for k, v in den["other"].items():
             if k.upper() in (b"TITLE", b"ARTIST", b"PLAYLEVEL", b"LNOBJ") or v == b"":
                 continue
-            if misc.get(k) != v:
+            if misc.get(k.upper()) != v:
                 out.append(f"header #{k.decode('ascii', 'replace')} is not retained: read {misc.get(k)!r}, the file says {v!r}")
         bp = _rows(a, "bpms")
         if not bp:
